@@ -761,11 +761,23 @@ fn body<T: Res>(c: Clo) -> T {
     ALIVE.fetch_sub(1, SeqCst);
     if c.behave == 1 {
         DONE[c.i].store(1, SeqCst);
+        if c.tag % 3 == 0 {
+            // a message that cannot be rendered: whoever formats it panics again
+            panic!("generated panic: {}", Unrenderable);
+        }
         panic!("generated panic");
     }
     let v = T::make(c.tag);
     DONE[c.i].store(1, SeqCst);
     v
+}
+
+struct Unrenderable;
+
+impl core::fmt::Display for Unrenderable {
+    fn fmt(&self, _f: &mut core::fmt::Formatter<'_>) -> core::fmt::Result {
+        panic!("the panic message cannot be rendered");
+    }
 }
 
 /// behave 3 / 4: this (spawned) thread itself spawns a thread and joins it (3) or drops its handle once it has
